@@ -1,6 +1,7 @@
 import MxlVerif.Model.C07
 import MxlVerif.Lemmas.C07Main
 import MxlVerif.Lemmas.C07Witness
+import MxlVerif.Lemmas.C07Free
 namespace Mxl.C07
 
 /-! ### facts about the language templates as they stand in the repository (re-checked every run) -/
@@ -49,6 +50,18 @@ theorem C07_equiv_partial (c : Content) (L : Lang) (t : Rat) (xs : List Rat)
     (hL : L ≠ .jl) (hok : okC c = true) (hxs : xs.length = c.vars.length) :
     genRun [] c L [] t xs [] = callRhs c t xs :=
   equiv_main c L t xs hL (Ok.of_okC hok) hxs
+
+/-- **Free parameters.**  Requested free parameters become extra inputs: calling the generated function with
+    values `ps` for them returns what the model returns after those parameters are set to `ps`
+    (`update_parameters`), for every content in `okC` and every list of distinct plain parameters. -/
+theorem C07_equiv_free_partial (c : Content) (L : Lang) (free : List Name) (t : Rat) (xs ps : List Rat)
+    (hL : L ≠ .jl) (hok : okC c = true) (hf : freeOkB c free ps = true) (hxs : xs.length = c.vars.length) :
+    genRun [] c L free t xs ps = callRhs (setPars c free ps) t xs :=
+  equiv_free c L free t xs ps hL (Ok.of_okC hok) (FreeOk.of_B hf) hxs
+
+example : freeOkB wOk ["k"] [5] = true
+    ∧ resEq (genRun [] wOk .ts ["k"] 1 [3, 5] [5]) (callRhs (setPars wOk ["k"] [5]) 1 [3, 5]) = true
+    ∧ resEq (genRun [] wOk .ts ["k"] 1 [3, 5] [5]) (callRhs wOk 1 [3, 5]) = false := by decide +kernel
 
 /-- the hypothesis is satisfiable by a non-trivial model: static derived parameter, derived values declared
     out of order, a derived value reading a reaction rate -/
